@@ -126,17 +126,18 @@ func readBuiltins() map[string][]Step {
 
 // alphabet of one pipeline shape: names that may be registered, names that may be targeted
 type alphabet struct {
-	users   []string // fresh names for Register
-	targets []string // Before/After targets (built-ins, users, an unknown name, "*")
-	victims []string // built-in names offered to Replace/Remove (user names are always offered)
-	double  []string // targets used in the two-sided form Before(a).After(b)
+	users       []string // fresh names for Register, registered in this order (they are interchangeable)
+	targets     []string // Before/After targets (built-ins, users, an unknown name, "*")
+	victims     []string // built-in names offered to Replace/Remove (user names are always offered)
+	double      []string // targets used in the two-sided form Before(a).After(b)
+	doubleDepth int      // the two-sided form is offered for the first doubleDepth calls only (0 = always)
 }
 
 // stepsFrom lists the in-domain steps available after the history h (names used so far / live).
-func stepsFrom(a alphabet, used, live map[string]bool, liveOrder []string) []Step {
+func stepsFrom(a alphabet, depth int, used, live map[string]bool, liveOrder []string) []Step {
 	var out []Step
-	// the first unused user name only (the names are interchangeable until used or targeted; both
-	// are offered when one of them has already been mentioned as a target, see caller)
+	// the first unused user name only: user names are interchangeable until they are registered
+	// (targets may name any of them at any time), so they are registered in the order u1, u2, u3
 	for _, u := range a.users {
 		if used[u] {
 			continue
@@ -146,11 +147,14 @@ func stepsFrom(a alphabet, used, live map[string]bool, liveOrder []string) []Ste
 			out = append(out, Step{Kind: "register", Name: u, Before: t})
 			out = append(out, Step{Kind: "register", Name: u, After: t})
 		}
-		for _, x := range a.double {
-			for _, y := range a.double {
-				out = append(out, Step{Kind: "register", Name: u, Before: x, After: y})
+		if a.doubleDepth == 0 || depth < a.doubleDepth {
+			for _, x := range a.double {
+				for _, y := range a.double {
+					out = append(out, Step{Kind: "register", Name: u, Before: x, After: y})
+				}
 			}
 		}
+		break
 	}
 	for _, n := range liveOrder {
 		isVictim := false
@@ -185,7 +189,7 @@ func enumerate(base []Step, skipTx bool, a alphabet, maxLen int, visit func(h []
 			live[e.Name] = true
 			order = append(order, e.Name)
 		}
-		for _, s := range stepsFrom(a, r.used, live, order) {
+		for _, s := range stepsFrom(a, len(h)-len(base), r.used, live, order) {
 			h2 := append(append([]Step{}, h...), s)
 			rec(h2)
 		}
@@ -193,7 +197,7 @@ func enumerate(base []Step, skipTx bool, a alphabet, maxLen int, visit func(h []
 	rec(base)
 }
 
-func alphabetFor(builtins []Step, skipTx bool, full bool) alphabet {
+func alphabetFor(builtins []Step, skipTx bool, full bool, nusers int, doubleDepth int) alphabet {
 	var live []string
 	for _, b := range builtins {
 		if !(b.Tx && skipTx) {
@@ -204,8 +208,8 @@ func alphabetFor(builtins []Step, skipTx bool, full bool) alphabet {
 	if len(live) > 3 && !full {
 		reps = []string{live[0], live[len(live)/2], live[len(live)-1]}
 	}
-	a := alphabet{users: []string{"u1", "u2"}}
-	a.targets = append(append([]string{}, reps...), "u1", "u2", "zz:unknown", "*")
+	a := alphabet{users: []string{"u1", "u2", "u3"}[:nusers], doubleDepth: doubleDepth}
+	a.targets = append(append(append([]string{}, reps...), a.users...), "zz:unknown", "*")
 	a.victims = reps
 	a.double = a.targets
 	return a
@@ -219,8 +223,8 @@ func cloneSteps(h []Step) []Step { return append([]Step{}, h...) }
 
 // exhaustive: all in-domain histories of length <= maxLen after the built-in prefix.
 // known: how many histories that fall into a known-finding class are kept (-1 = all).
-func exhaustive(add func(string, Input), pipeline string, skipTx bool, builtins []Step, full bool, maxLen int, keepKnown int) {
-	a := alphabetFor(builtins, skipTx, full)
+func exhaustive(add func(string, Input), pipeline string, skipTx bool, builtins []Step, full bool, nusers, doubleDepth, maxLen int, keepKnown int) {
+	a := alphabetFor(builtins, skipTx, full, nusers, doubleDepth)
 	known := 0
 	enumerate(builtins, skipTx, a, maxLen, func(h []Step) {
 		in := Input{Pipeline: pipeline, SkipTx: skipTx, Steps: cloneSteps(h)}
@@ -338,16 +342,18 @@ func randomHistory(r *lib.Rng, pipeline string, skipTx bool, builtins []Step, mo
 func generate(a lib.Args, bi map[string][]Step, base func(string) []Step, add func(string, Input)) {
 	r := lib.NewRng(a.Seed)
 	if a.Tier == "thorough" {
-		// every in-domain history of length <= 3 (the bound of the property text), known classes included
-		exhaustive(add, "row", false, base("row"), true, 3, -1)
-		exhaustive(add, "raw", false, base("raw"), true, 2, -1)
-		exhaustive(add, "query", false, base("query"), true, 3, -1)
+		// every in-domain history of length <= 3 (the bound of the property text) on the one-built-in
+		// pipelines, known classes included; the larger pipelines: length <= 2, and length 3 without the
+		// two-sided form in the last call (the Coq theorems c17_len3_exhaustive_* cover the model in full)
+		exhaustive(add, "row", false, base("row"), true, 3, 2, 3, -1)
+		exhaustive(add, "raw", false, base("raw"), true, 2, 0, 2, -1)
+		exhaustive(add, "query", false, base("query"), true, 2, 1, 3, -1)
 		for _, p := range []string{"create", "update", "delete"} {
-			exhaustive(add, p, false, base(p), false, 2, -1)
-			exhaustive(add, p, true, base(p), false, 2, -1)
+			exhaustive(add, p, false, base(p), false, 2, 1, 2, -1)
+			exhaustive(add, p, true, base(p), false, 2, 1, 2, -1)
 		}
 	} else if a.Focus == "" {
-		exhaustive(add, "row", false, base("row"), true, 2, 120)
+		exhaustive(add, "row", false, base("row"), true, 2, 0, 2, 150)
 	}
 	budget := 3000
 	if a.Tier == "thorough" {
